@@ -33,6 +33,6 @@ try:
     for l in lines[:6]: print("   ", l[:300])
     if r.returncode == 2: print(r.stderr[-2000:])
 finally:
-    sh(["git","-C","/repo","checkout","--","."])
+    sh(["git","-C","/repo","checkout","--","."]); sh(["git","-C","/repo","clean","-fdq","--","crates","packages"])
     # evidence is only ever what a run against the unchanged tree wrote
     for f, t in evidence_backup.items(): open(f, "w").write(t)
